@@ -325,7 +325,9 @@ def main(chk):
     chk.cov["rule"] = ("object literals over 8 names (public, private `_p`, with `?`, capitalised) with 0-10 pairs and 0-3 `**` unpackings with "
                        "duplicates everywhere; map literals over 20 keys of every kind (ints, strs incl. \"1\" and \"\", nil, booleans, floats incl. "
                        "0.0/-0.0/2.0, arrays, objects) with `**map` and `**obj`; observed: print, keys, values, items (also private?: true), len, "
-                       "iteration, indexing by every pool key, equality with its own unpacking; each program evaluated 8 times. Oracle: an "
+                       "iteration, indexing by every pool key, equality with its own unpacking; the same key given by the literal and by one, two, three `**` items "
+                       "for every key kind; `private?:` with non-true values; sources of `**` printed and unpacked again; keys that are == across kinds, keys "
+                       "that print alike but are not ==, keys named like properties with nil values; each program evaluated 8 times. Oracle: an "
                        "ordered-dictionary model (first wins; names sorted, private hidden; scalar keys by (type,value) in insertion order then "
                        "the other keys by == in insertion order) and PanCore.")
     for i in (0, len(progs) // 2, len(progs) - 1):
